@@ -9,11 +9,13 @@
                                        args: `node|name|ty` joined by `;`, retItems: `a;b` or `~`
                                        -> OK <wf> <refinj> <line>\x1f<line>...   |   ERR <exception>
    H e origin name                     one `make_ref` call on a registered expression            -> <name> | ERR ..
+   I valuespec                         `toidentifier` of a value (Models/ConstName.lean)            -> identifier | !Exception
    T target                            rows of the regenerated kind table failing `rowOK`        -> comma list
    E target                            the exempt rows (Models/Printer.lean `exempt`)              -> comma list
 -/
 import FAVerif.Models.Printer
 import FAVerif.Models.RefAlloc
+import FAVerif.Models.ConstName
 import FAVerif.Generated.C05Tables
 open FAVerif.Printer FAVerif.RefAlloc FAVerif.Gen.C05
 
@@ -50,9 +52,30 @@ def parseTarget : String → Option Target
   | "cpp" => some .cpp
   | _ => none
 
+/-- value specification of a constant: `@int:n`, `@bool:b`, `@pyfloat:bits`, `@pycomplex:re:im`,
+`@npfloat:w:bits`, `@npcomplex:w:re:im`, `@name:s`; anything else is taken as the identifier itself
+(`!Exc` = `toidentifier` raised Exc) -/
+def parseVal (s : String) : Option FAVerif.ConstName.Val :=
+  match s.splitOn ":" with
+  | ["@int", n] => n.toInt?.map .int
+  | ["@bool", b] => some (.bool (b == "1"))
+  | ["@pyfloat", b] => b.toNat?.map .pyfloat
+  | ["@pycomplex", a, b] => match a.toNat?, b.toNat? with | some a, some b => some (.pycomplex a b) | _, _ => none
+  | ["@npfloat", w, b] => match w.toNat?, b.toNat? with | some w, some b => some (.npfloat w b) | _, _ => none
+  | ["@npcomplex", w, a, b] =>
+    match w.toNat?, a.toNat?, b.toNat? with | some w, some a, some b => some (.npcomplex w a b) | _, _, _ => none
+  | ["@name", n] => some (.name n)
+  | _ => none
+
+/-- the identifier the MODEL derives from the value (`Models/ConstName.lean`) -/
+def identOf (spec : String) : String :=
+  match parseVal spec with
+  | some v => match FAVerif.ConstName.ident v with | .ok s => s | .error e => "!" ++ e
+  | none => spec
+
 def toRNode (r : Rec) : RNode :=
   { kind := r.kind, refName := r.refName, origin := r.origin, operands := r.cargs, intkey := r.intkey,
-    text := if r.kind == "constant" then r.ident else r.text }
+    text := if r.kind == "constant" then identOf r.ident else r.text }
 
 def showExc : Except String String → String
   | .ok s => s
@@ -127,6 +150,7 @@ def stepLine (st : DState) (line : String) : DState × String :=
     match parseTarget tgt with
     | some t => (st, ",".intercalate (badRows t (tablesOf t)))
     | none => (st, "ERR bad-target")
+  | ["I", spec] => (st, identOf spec)
   | ["E", tgt] =>
     match parseTarget tgt with
     | some t => (st, ",".intercalate (exempt t))
